@@ -15,14 +15,17 @@ PROP = dict(
         "Comdex.C10.bidders_pay_le_target_counterexample", "Comdex.C10.bidders_receive_le_collateral_counterexample",
         "Comdex.C10.open_books_exact", "Comdex.C10.bid_moves_exactly",
         "Comdex.C10.bid_at_posted_price", "Comdex.C10.bid_at_posted_price_exhausted", "Comdex.C10.bid_at_posted_price_exhausted_requested",
-        "Comdex.C10.close_proceeds_distributed", "Comdex.C10.close_custody_accounted",
+        "Comdex.C10.close_proceeds_distributed", "Comdex.C10.lend_close_split", "Comdex.C10.close_custody_accounted",
         "Comdex.C10.close_distributes_all_partial", "Comdex.C10.close_distributes_all_counterexample",
         "Comdex.C10.v1_bidders_pay_le_target_and_receive_le_collateral", "Comdex.C10.v1_custody_exact",
-        "Comdex.C10.v1_bid_moves_and_close_distributes", "Comdex.C10.v1_bid_at_posted_price",
+        "Comdex.C10.v1_bid_moves_and_close_distributes", "Comdex.C10.v1_bid_at_posted_price", "Comdex.C10.v1_esm_winddown_empties_custody",
+        "Comdex.C10.l1_bidders_pay_le_target_and_receive_le_seized", "Comdex.C10.l1_close_custody_partial",
+        "Comdex.C10.l1_bid_moves_and_close_distributes", "Comdex.C10.l1_close_custody_counterexample",
     ],
     harness_tests=["TestC10"],
     monitors=["pay_le_target", "receive_le_collateral", "books_exact", "close_distributes", "posted_price", "price_monotone", "price_in_range",
               "price_in_range_slack", "price_below_end_at_T", "start_price", "start_record", "reserve_draw_skipped", "limit_fill_overcharge",
+              "proceeds_forwarded", "lend_bonus_stranded",
               "books_exact_after_d7", "pay_le_target_after_d7", "receive_le_collateral_after_d7", "close_distributes_after_d7"],
     trusted_base=[KERNEL_TB, HARNESS_TB,
                   "Base/Dec.lean (model of sdk.Dec, validated separately against the real library by harness/dec_test.go)",
@@ -35,9 +38,11 @@ PROP = dict(
                   "eleven account balances, collector fees, booked fees, reserve record and supply after every operation",
                   "Model/DutchV1.lean is hand-written from x/auction/keeper/dutch.go:164-463,465-663 and x/collector/keeper/collector.go:14-39; "
                   "tied by replaying generated bid / block-hook sequences on vaults seized by the real first-generation liquidation keeper",
-                  "lend-initiated second-generation auctions: only the transfer of the target to the lending side is modelled "
-                  "(liquidate.go:721-738); the split between pool and lend reserve account is observed as one balance; "
-                  "first-generation lend auctions (dutch_lend.go): price functions only",
+                  "Model/DutchV1Lend.lean is hand-written from x/auction/keeper/dutch_lend.go:136-497; tied by real x/liquidation borrow "
+                  "liquidations (MsgLiquidateBorrow, sweep) and MsgPlaceDutchLendBid; the lend-side book-keeping of the close, the reserve "
+                  "balance and an immediate re-liquidation are external values read off the real stores / balances",
+                  "second-generation lend close: penalty, reserve interest and bridge amount are external values read from the lend stores; "
+                  "cTokens are not tracked",
                   "x/bank (send/burn semantics, module accounts), protobuf and the KV store are exercised, not modelled beyond balances"],
     assumptions=["asset decimals are positive; premium >= 0; 0 <= discount <= 1; oracle values fit the uint64 they are stored in",
                  "bidders, owner, keeper, initiator, collector, reserve and module accounts are distinct accounts",
@@ -70,7 +75,7 @@ META = dict(
          "at one premium (D7) break pay<=target and receive<=collateral; an insufficient app reserve is silently ignored and other users' funds "
          "in the module account pay for the close. Also found by the monitors: a limit fill clipped by exhausted collateral debits the whole "
          "remaining target from the deposit (limit_fill_overcharge).",
-    note="Partial: first-generation LEND auctions (dutch_lend.go) are covered by the price functions only; the lend-internal split of the "
-         "returned target (pool vs reserve) is not modelled; ESM-triggered closes are out of scope (C14). The V2 ledger theorems carry the "
-         "hypothesis 'at most one limit bid per premium' because the code is wrong without it (D7).",
+    note="Partial: lend-side book-keeping at the close of a first-generation lend auction is not modelled (external inputs); cTokens are not "
+         "tracked; second-generation ESM trigger is out of scope (C14). The V2 ledger theorems carry the hypothesis 'at most one limit bid "
+         "per premium' because the code is wrong without it (D7); first-generation lend custody is exact only up to the unpaid bonus pot (D30).",
 )
